@@ -192,6 +192,7 @@ class Bounds:
 LENOF = [None]
 PRED = [None]
 RETRANGE = [None]
+ENUMARGS = [None]
 RET_SUMMARY = [{}]  # function path -> (lo, hi) of its return value, supplied by a rule that decides it (named where it is set)
 
 
@@ -210,10 +211,17 @@ def _retrange_factory(F):
         cache[key] = None
         cb = F.fn(path)
         npts = 1
-        for lo, hi in ranges:
+        doms = []
+        for rg in ranges:
+            if rg and rg[0] == "enum":
+                doms.append([("adt", rg[1] + "::" + nm) for nm in rg[2]])
+                npts *= len(rg[2])
+                continue
+            lo, hi = rg
             if lo < 0 or hi < lo:
                 return None
             npts *= (hi - lo + 1)
+            doms.append(range(lo, hi + 1))
         if cb is None or cb.mir is None or npts > 4096 or cb.mir.get("arg_count") != len(ranges):
             return None
         S2 = sym.Sym(cb)
@@ -227,9 +235,9 @@ def _retrange_factory(F):
         cps = {k_: v_ for k_, v_ in (env or {}).items() if not k_.startswith("assoc:")}
         import itertools
         lo_, hi_ = None, None
-        for pt in itertools.product(*[range(a, b_ + 1) for a, b_ in ranges]):
+        for pt in itertools.product(*doms):
             try:
-                v = evalx.run(S2, F, paths, {"params": {i + 1: x for i, x in enumerate(pt)}, "cparams": cps}, tabs)
+                v = evalx.run(S2, F, paths, {"symbolic": True, "params": {i + 1: x for i, x in enumerate(pt)}, "cparams": cps}, tabs)
             except evalx.Panics:
                 continue
             except (evalx.Unknown, RecursionError):
@@ -361,6 +369,10 @@ def irange(e, B, tyof, env=None, depth=0):
     elif k == "call" and RETRANGE[0] is not None and isinstance(e[1], str) and not e[1].startswith(("core::", "alloc::", "std::")) and 1 <= len(e[2]) <= 3:
         # a small pure crate function: its exact value range over the (small) product of its argument ranges
         ars = [irange(a_, B, tyof, env, depth + 1) for a_ in e[2]]
+        if any(x is None for x in ars) and ENUMARGS[0] is not None:
+            # an argument of a field-less enum type: all its variants
+            ens = ENUMARGS[0](e[1])
+            ars = [x if x is not None else (ens[i_] if ens and i_ < len(ens) else None) for i_, x in enumerate(ars)]
         if all(x is not None for x in ars):
             rr = RETRANGE[0](e[1], tuple(ars), env)
             if rr is not None:
@@ -451,6 +463,22 @@ def discharge(F, sites, envs):
     TABLES[0] = _table_values_factory(F)
     PRED[0] = _pred_factory(F)
     RETRANGE[0] = _retrange_factory(F)
+
+    def _enum_args(path, F=F):
+        cb = F.fn(path)
+        if cb is None or cb.mir is None:
+            return None
+        out = []
+        for i_ in range(1, (cb.mir.get("arg_count") or 0) + 1):
+            ty = cb.local_ty(i_)
+            while ty and ty.get("k") == "ref":
+                ty = F.ty(ty["to"])
+            vs = common.enum_variants(F, ty["path"]) if ty and ty.get("k") == "adt" and ty.get("krate") == F.d.get("crate", "tlsh") else None
+            a_ = common.adt(F, ty["path"]) if vs else None
+            fieldless = bool(a_) and all(not v_.get("fields") for v_ in a_["variants"])
+            out.append(("enum", ty["path"], tuple(sorted(vs))) if vs and fieldless and len(vs) <= 16 else None)
+        return out
+    ENUMARGS[0] = _enum_args
     by_fn = {}
     # slice-window operations of the text parser itself, when the evaluation-based reader model (rmodel) has replayed the parser on
     # every input length of a dense range and every combination of abstract outcomes without any of them going out of range
